@@ -136,6 +136,32 @@ fn step(s: &dyn ShapeDyn, d: &Desc, img: &[u8], pop: &PathOp) -> StepResult {
         if let Err(e) = slot.check() {
             res.viol.push(("C14", format!("canary/{}", name), e));
         }
+        // The same call through FlatWrap (validated once, then every access maps the whole slice unchecked): on a
+        // slice whose length is not a multiple of ALIGN the two ways of mapping must still see the same value.
+        if n % d.align() != 0 {
+            slot.bytes_mut().copy_from_slice(img);
+            let rw = catch(|| s.apply_wrapped(slot.bytes_mut(), std::slice::from_ref(pop)));
+            let after_w = slot.bytes().to_vec();
+            let _ = &after_w;
+            if let Err(e) = slot.check() {
+                res.viol.push(("C14", format!("canary/wrapped/{}", name), e));
+            }
+            match (&r, &rw) {
+                (Ok(Ok((o1, ob1))), Ok(Ok((o2, ob2)))) => {
+                    if ob2.size > n || ob2.size_of_val > n {
+                        res.viol.push(("C05", format!("wrapped_size_gt_slice/{}", name), format!("through FlatWrap: size() {} / size_of_val {} > slice {}", ob2.size, ob2.size_of_val, n)));
+                    }
+                    // (the raw bytes are not compared: padding inside by-value elements is whatever the stack held)
+                    if o1 != o2 || ob1.value != ob2.value || ob1.size != ob2.size {
+                        res.viol.push((own, format!("wrapped_differs/{}", name), format!("from_mut_bytes gives {:?} / {:?} size {}, FlatWrap gives {:?} / {:?} size {} (bytes {} vs {})", o1, ob1.value.0, ob1.size, o2, ob2.value.0, ob2.size, hex(&after), hex(&after_w))));
+                    }
+                }
+                (Ok(Err(_)), Ok(Err(_))) => {}
+                (Err(_), _) => {} // the panic of the checked path is reported below
+                (_, Err(p)) => res.viol.push((own, format!("panic/wrapped/{}/{}", name, panic_site(p)), format!("through FlatWrap: panic: {}", p))),
+                _ => res.viol.push((own, format!("wrapped_differs/{}", name), "one way of mapping accepts the image, the other refuses it".into())),
+            }
+        }
         let (outs, obs) = match r {
             Err(p) => {
                 res.viol.push((own, format!("panic/{}/{}", name, panic_site(&p)), format!("panic: {}", p)));
@@ -653,6 +679,24 @@ impl Engine for Hist {
                     if let Ok(img) = refmodel::encode_opt(&d, v, n, 0xEE, true) {
                         if decode(&d, &img.bytes).is_ok() {
                             inits.push(img.bytes);
+                        }
+                    }
+                }
+            }
+            if !clamp && format!("{:?}", d).contains("Flex") {
+                // the other documented chain form needs one more slot than the MAX-marked one, so the largest
+                // fitting value never has it: take the two largest values whose zero-terminated image fits
+                // (foreign bytes; the library itself never writes this form)
+                let vals = enum_values(&d, n, &Limits::quick());
+                let mut taken = 0;
+                for v in vals.iter().rev() {
+                    if let Ok(img) = refmodel::encode_opt(&d, v, n, 0xEE, true) {
+                        if decode(&d, &img.bytes).is_ok() && !inits.contains(&img.bytes) {
+                            inits.push(img.bytes);
+                            taken += 1;
+                            if taken == 2 {
+                                break;
+                            }
                         }
                     }
                 }
